@@ -159,13 +159,17 @@ class LoopMixin:
                 r = run.rec(ref.oid)
                 # iteration order = ghost sequence of keys of the dict (membership instantiated per visited index;
                 # distinctness of the visited keys is not assumed: a sound over-approximation)
-                ks = z3.Array(f"{r.sym}#order", z3.IntSort(), self.sort_of(r.ktype))
+                ks = self.order_array(r)
                 n = r.size
                 dom0 = r.dom
+                pos = z3.Function(f"{ks.decl().name()}#pos", self.sort_of(r.ktype), z3.IntSort())
+                # the keys visited by this loop: the snapshot domain, the ghost order and its inverse (visit_index / in_visit in invariants)
+                self._last_view = {"ks": ks, "dom": dom0, "n": n, "ktype": r.ktype, "pos": pos}
 
                 def elem(k):
                     kt = z3.Select(ks, k)
                     run.assume(z3.Select(dom0, kt))
+                    run.assume(pos(kt) == k)          # the order is a bijection: dict keys are pairwise distinct
                     kv = self.wrap(r.ktype, kt)
                     if tag == "#dictkeys":
                         return kv
@@ -184,7 +188,18 @@ class LoopMixin:
         header = self.loop_header(node)
         if spec is None:
             raise E.Unsupported(f"loop without invariant over symbolic iterable: {header}")
+        self._last_view = None
         n, elem = self.iter_view(it, node, frame)
+        if not hasattr(self, "loop_views"):
+            self.loop_views = []
+        self.loop_views.append(self._last_view)
+        try:
+            return self.cut_for_body(node, frame, spec, header, n, elem)
+        finally:
+            self.loop_views.pop()
+
+    def cut_for_body(self, node, frame, spec, header, n, elem):
+        run = self.run
         run.cut = True
         invs = spec.get("invariant", [])
         for i, inv in enumerate(invs):
@@ -201,6 +216,14 @@ class LoopMixin:
             for old_n, new_n in getattr(self, "loop_alias", {}).get(id(node), {}).items():
                 if new_n in frame.locals:
                     frame.locals[old_n] = frame.locals[new_n]       # the contract still calls the renamed loop variable by its old name
+            for inst in spec.get("instances", []):
+                # the invariants were established for ARBITRARY values of the ghost parameters, so they hold at this head for any particular
+                # value too -- e.g. for the element this iteration visits (sound as long as no `requires` constrains the ghost parameter)
+                extra_i = {"_k": VInt(k), "_n": VInt(n)}
+                for g_, ex_ in inst.items():
+                    extra_i[g_] = self.eval(ast.parse(ex_, mode="eval").body, frame)
+                for inv in invs:
+                    run.assume(self.eval_inv(inv, frame, extra_i))
             self.fire("loop_iter", header, k)
             for fact in spec.get("assume_at_iter", []):
                 # instances of trusted structural facts (e.g. pairwise distinct dict keys), stated in the contract
